@@ -102,15 +102,7 @@ func ruleC10Order(c *ctx.Ctx, r *core.Reporter) {
 	}
 	// ImportDependencies: post-order, runtime first
 	if fd := c.FuncDecl("compiler", "ImportDependencies"); fd != nil {
-		s := squash(nodeString(c, fd.Body))
-		iRec := strings.Index(s, "for_,imp:=rangedep.Imports{iferr:=collectDependencies(imp);err!=nil{returnerr}}")
-		iApp := strings.Index(s, "deps=append(deps,dep)")
-		r.Check(iRec >= 0 && iApp > iRec, "link:post-order", c.Pos(fd.Pos()), "a package is appended to the link list after all packages it imports")
-		r.Check(strings.Contains(s, "ifpaths[path]{returnnil}") && strings.Contains(s, "paths[dep.ImportPath]=true"), "link:once", c.Pos(fd.Pos()), "each package is linked once")
-		iRt := strings.Index(s, `collectDependencies("runtime")`)
-		iImp := strings.Index(s, "for_,imp:=rangearchive.Imports{")
-		iSelf := strings.LastIndex(s, "deps=append(deps,archive)")
-		r.Check(iRt >= 0 && iImp > iRt && iSelf > iImp, "link:runtime-first-main-last", c.Pos(fd.Pos()), "runtime and its dependencies come first, the main archive last")
+		checkImportDependencies(c, r, fd)
 	}
 	// GetSortedSources
 	if fd := c.FuncDecl("build", "Session.GetSortedSources"); fd != nil {
@@ -263,4 +255,114 @@ func ruleC10Linkname(c *ctx.Ctx, r *core.Reporter) {
 			}
 		}
 	}
+}
+
+// checkImportDependencies: structural reading of the dependency walk. The recursive closure
+// is found by its self-call, the result list by the function's return statement; local names are free.
+func checkImportDependencies(c *ctx.Ctx, r *core.Reporter, fd *ast.FuncDecl) {
+	pos := c.Pos(fd.Pos())
+	// result list: `return <ident>, nil` as the last statement
+	var result string
+	if rs, ok := fd.Body.List[len(fd.Body.List)-1].(*ast.ReturnStmt); ok && len(rs.Results) == 2 {
+		if id, ok := rs.Results[0].(*ast.Ident); ok {
+			result = id.Name
+		}
+	}
+	// recursive closure: <name> = func(p string) error { … <name>(…) … }
+	var rec *ast.FuncLit
+	var recName string
+	ast.Inspect(fd.Body, func(n ast.Node) bool {
+		if as, ok := n.(*ast.AssignStmt); ok && len(as.Lhs) == 1 && len(as.Rhs) == 1 {
+			if fl, ok := as.Rhs[0].(*ast.FuncLit); ok {
+				if id, ok := as.Lhs[0].(*ast.Ident); ok && len(callsToIdent(fl.Body, id.Name)) > 0 {
+					rec, recName = fl, id.Name
+				}
+			}
+		}
+		return true
+	})
+	if rec == nil || result == "" || len(rec.Type.Params.List) != 1 || len(rec.Type.Params.List[0].Names) != 1 {
+		r.Undecided("link:post-order", pos, "could not identify the recursive dependency walk or the result list")
+		return
+	}
+	param := rec.Type.Params.List[0].Names[0].Name
+	isAppendTo := func(st ast.Stmt, list string) (ast.Expr, bool) {
+		as, ok := st.(*ast.AssignStmt)
+		if !ok || len(as.Lhs) != 1 || len(as.Rhs) != 1 || exprStr(as.Lhs[0]) != list {
+			return nil, false
+		}
+		call, ok := as.Rhs[0].(*ast.CallExpr)
+		if !ok || exprStr(call.Fun) != "append" || len(call.Args) != 2 || exprStr(call.Args[0]) != list {
+			return nil, false
+		}
+		return call.Args[1], true
+	}
+	// inside the closure (top-level statement list): the range with the recursive call precedes the append
+	iRec, iApp, nApp := -1, -1, 0
+	for i, st := range rec.Body.List {
+		if rs, ok := st.(*ast.RangeStmt); ok && len(callsToIdent(rs.Body, recName)) > 0 && iRec < 0 {
+			// an error of the recursive call must leave the closure
+			iRec = i
+		}
+		if _, ok := isAppendTo(st, result); ok {
+			iApp = i
+			nApp++
+		}
+	}
+	r.Check(iRec >= 0 && nApp == 1 && iApp > iRec, "link:post-order", pos, "a package is appended to the link list exactly once per visit, after the walk over all packages it imports")
+	// visited set: first statement returns early on M[param]; M[…] = true is set in the closure
+	var visited string
+	if is, ok := rec.Body.List[0].(*ast.IfStmt); ok && is.Init == nil {
+		if ix, ok := is.Cond.(*ast.IndexExpr); ok && exprStr(ix.Index) == param && len(is.Body.List) == 1 {
+			if _, isRet := is.Body.List[0].(*ast.ReturnStmt); isRet {
+				visited = exprStr(ix.X)
+			}
+		}
+	}
+	marks := false
+	for _, st := range rec.Body.List {
+		if as, ok := st.(*ast.AssignStmt); ok && len(as.Lhs) == 1 && exprStr(as.Rhs[0]) == "true" {
+			if ix, ok := as.Lhs[0].(*ast.IndexExpr); ok && exprStr(ix.X) == visited {
+				marks = true
+			}
+		}
+	}
+	r.Check(visited != "" && marks, "link:once", pos, "each package is linked once: the walk returns at once for a visited path and marks every package it appends")
+	// outer order: walk("runtime") ≺ range over the archive's imports ≺ append of the archive itself
+	iRt, iImp, iSelf := -1, -1, -1
+	archive := ""
+	if len(fd.Type.Params.List) > 0 && len(fd.Type.Params.List[0].Names) > 0 {
+		archive = fd.Type.Params.List[0].Names[0].Name
+	}
+	for i, st := range fd.Body.List {
+		for _, call := range callsToIdent(st, recName) {
+			if _, inClosure := st.(*ast.AssignStmt); inClosure {
+				continue
+			}
+			if len(call.Args) == 1 && exprStr(call.Args[0]) == `"runtime"` && iRt < 0 {
+				iRt = i
+			}
+		}
+		if rs, ok := st.(*ast.RangeStmt); ok && exprStr(rs.X) == archive+".Imports" && len(callsToIdent(rs.Body, recName)) > 0 {
+			iImp = i
+		}
+		if arg, ok := isAppendTo(st, result); ok && exprStr(arg) == archive {
+			iSelf = i
+		}
+	}
+	r.Check(iRt >= 0 && iImp > iRt && iSelf > iImp, "link:runtime-first-main-last", pos, "runtime and its dependencies come first, the main archive last")
+}
+
+// callsToIdent lists calls whose function is the plain identifier name.
+func callsToIdent(n ast.Node, name string) []*ast.CallExpr {
+	var out []*ast.CallExpr
+	ast.Inspect(n, func(x ast.Node) bool {
+		if call, ok := x.(*ast.CallExpr); ok {
+			if id, ok := call.Fun.(*ast.Ident); ok && id.Name == name {
+				out = append(out, call)
+			}
+		}
+		return true
+	})
+	return out
 }
